@@ -30,7 +30,7 @@ var registry = reg.New()
 
 func TestMain(m *testing.M) {
 	ev.Describe("2..64 goroutines (quick: up to 16), each with 1..12 calls out of: AgainstSchema on schemas shared between goroutines (reference-free) with per-goroutine instances; Validate on one shared long-lived non-recycling validator; "+
-		"NewSpecValidator(...).Validate on the goroutine's own document; the value helpers incl. Pattern; plus, in half of the cases, a goroutine calling SetContinueOnErrors. GOMAXPROCS drawn from {1,2,4,16}; all goroutines are released together. "+
+		"NewSpecValidator(...).Validate on the goroutine's own document; the value helpers incl. Pattern; plus, in half of the cases, a goroutine calling SetContinueOnErrors. GOMAXPROCS drawn from {1,2,4,16} in the plain binary (left alone under -race, where resizing it crashed the detector's runtime); all goroutines are released together. "+
 		"Every redeemed object is scribbled (drawn polarity) and the redeeming goroutine yields at generated points. Oracle: each call's outcome equals its outcome computed sequentially beforehand; the binary runs under the Go race detector (any report fails the run). "+
 		"Non-trivial = at least two goroutines overlapping on the same pool types with at least one invalid outcome and outcomes that differ between goroutines; distinct by content hash",
 		"the Go scheduler is not controlled: interleavings are sampled; the race detector reports races of executed access pairs without needing the bad timing; scribbling makes stale reads deterministic",
@@ -236,7 +236,11 @@ func check(c Case) (out ev.Outcome) {
 	if procs < 1 {
 		procs = 1
 	}
-	defer runtime.GOMAXPROCS(runtime.GOMAXPROCS(procs))
+	if !raceEnabled {
+		defer runtime.GOMAXPROCS(runtime.GOMAXPROCS(procs))
+	} else {
+		procs = runtime.GOMAXPROCS(0)
+	}
 	var wg sync.WaitGroup
 	start := make(chan struct{})
 	var mu sync.Mutex
